@@ -879,13 +879,16 @@ fn tensor_from_external_data<T: FromByteArray>(
     data: &DataSlice,
     name: Option<&str>,
 ) -> Result<ArcTensorView<T>, LoadError> {
-    let data: ArcSlice<T> = if let Some(elements) = cast_slice(data.data()) {
-        ArcSlice::new(data.storage.clone(), elements).unwrap()
-    } else if data.data().is_empty() {
+    let data: ArcSlice<T> = if data.data().is_empty() {
         // If `data.storage`'s backing storage is a zero-length `Vec<u8>` it
         // might have smaller alignment than required. Use
         // `ArcSlice::from_bytes` which has special handling of empty inputs.
+        //
+        // This must be tested before `cast_slice`, which succeeds for any
+        // empty slice regardless of the alignment of its pointer.
         ArcSlice::from_bytes(Vec::new()).unwrap()
+    } else if let Some(elements) = cast_slice(data.data()) {
+        ArcSlice::new(data.storage.clone(), elements).unwrap()
     } else {
         return Err(load_error!(
             GraphError,
